@@ -1,16 +1,17 @@
-(* BrokerHeapProofs.v — the broker's SnowflakeHeap (container/heap over a slice ordered by the
-   self-reported client count) refines the relational pool of Model/Broker.v: after any sequence of
-   AddSnowflake pushes, matchSnowflake pops (guarded by Len() > 0) and timeout removals (guarded by a valid
-   index) the slice is heap ordered, so heap.Pop returns a proxy with the smallest client count, and the
-   contents change only by the pushed / popped / removed element. *)
-From Coq Require Import List NArith Bool Arith Lia Permutation.
+(* BrokerHeapProofs.v — the broker's SnowflakeHeap (Model/BrokerHeap.v: container/heap over a slice ordered by
+   the self-reported client count, elements carrying their `index` field).
+   1. list level ([hstep]): after any sequence of pushes, guarded pops, guarded removals and fixes the slice is
+      heap ordered, so heap.Pop returns a proxy with the smallest client count, and the contents change only by
+      the pushed / popped / removed element;
+   2. pointer level ([xstep], the definition run against broker/snowflake-heap.go): it simulates the list
+      level, every element's `index` equals its position after any operation sequence, and every element that
+      left the heap holds index -1.
+   (3. Proofs/BrokerImplProofs.v: the matching machine over two such heaps refines Model/Broker.v.) *)
+From Coq Require Import List NArith ZArith Bool Arith Lia Permutation.
 From Snow Require Import Model.GoHeap Proofs.GoHeapProofs.
+From Snow Require Export Model.BrokerHeap.
 Import ListNotations.
 Open Scope N_scope.
-
-(* a heap element: (poll id, client count) ; Less compares client counts only *)
-Definition sf := (nat * N)%type.
-Definition sf_less (a b : sf) : bool := snd a <? snd b.
 
 Lemma sf_irrefl a : sf_less a a = false.
 Proof. unfold sf_less. apply N.ltb_irrefl. Qed.
@@ -19,21 +20,12 @@ Proof. unfold sf_less. intros H1 H2. apply N.ltb_lt in H1, H2. apply N.ltb_lt. l
 Lemma sf_negtrans a b c : sf_less a b = false -> sf_less b c = false -> sf_less a c = false.
 Proof. unfold sf_less. intros H1 H2. apply N.ltb_ge in H1, H2. apply N.ltb_ge. lia. Qed.
 
-Inductive hop := HPush (x : sf) | HPop | HRemove (i : nat).
-
-Definition hstep (l : list sf) (o : hop) : list sf :=
-  match o with
-  | HPush x => lpush sf_less x l
-  | HPop => match l with [] => l | _ => fst (lpop sf_less l) end
-  | HRemove i => if (i <? length l)%nat then fst (lremove sf_less l i) else l
-  end.
-
 Lemma heap_ok_nil : heap_ok sf sf_less [].
 Proof. intros p c a b _ H. destruct p; discriminate. Qed.
 
 Theorem hstep_ok l o : heap_ok sf sf_less l -> heap_ok sf sf_less (hstep l o).
 Proof.
-  intros H. destruct o as [x| |i]; cbn [hstep].
+  intros H. destruct o as [x| |i|i c]; cbn [hstep].
   - apply (lpush_heap_ok sf sf_less sf_irrefl sf_trans sf_negtrans). exact H.
   - destruct l as [|m l']; [exact H|].
     destruct (lpop_spec sf sf_less sf_irrefl sf_trans sf_negtrans (m :: l') m H eq_refl) as [l2 [Hp [Hok _]]].
@@ -42,14 +34,16 @@ Proof.
     destruct (nth_error l i) as [x|] eqn:Hx; [|apply nth_error_None in Hx; lia].
     destruct (lremove_spec sf sf_less sf_irrefl sf_trans sf_negtrans l i x H Hx) as [l2 [Hp [Hok _]]].
     rewrite Hp. exact Hok.
+  - destruct (nth_error l i) as [x|] eqn:Hx; [|exact H].
+    assert (Hi : (i < length l)%nat) by (apply nth_error_Some; congruence).
+    apply (lfix_spec sf sf_less sf_irrefl sf_trans sf_negtrans l i (fst x, c) H Hi).
 Qed.
 
+Lemma fold_hstep_ok : forall ops l, heap_ok sf sf_less l -> heap_ok sf sf_less (fold_left hstep ops l).
+Proof. induction ops as [|o ops IH]; intros l H; cbn [fold_left]; [exact H|]. apply IH. apply hstep_ok. exact H. Qed.
+
 Theorem heap_ops_ok : forall ops, heap_ok sf sf_less (fold_left hstep ops []).
-Proof.
-  intros ops. assert (G : forall l, heap_ok sf sf_less l -> heap_ok sf sf_less (fold_left hstep ops l)).
-  { induction ops as [|o ops IH]; intros l H; cbn [fold_left]; [exact H|]. apply IH. apply hstep_ok. exact H. }
-  apply G. apply heap_ok_nil.
-Qed.
+Proof. intros ops. apply fold_hstep_ok. apply heap_ok_nil. Qed.
 
 (* what matchSnowflake gets *)
 Theorem pop_least_loaded : forall ops m,
@@ -72,4 +66,260 @@ Theorem remove_contents l i x : heap_ok sf sf_less l -> nth_error l i = Some x -
 Proof.
   intros H Hx. destruct (lremove_spec sf sf_less sf_irrefl sf_trans sf_negtrans l i x H Hx) as [l' [Hp [_ Hperm]]].
   exists l'. split; assumption.
+Qed.
+
+(* ------------------------------------------------------------------ *)
+(* 2. the slice of pointers simulates the list; `index` = position       *)
+
+Definition idx_ok (s : list sfx) : Prop := forall i x, nth_error s i = Some x -> x_idx x = Z.of_nat i.
+Definition xR (s : list sfx) (l : list sf) : Prop := map x_el s = l /\ idx_ok s.
+
+Lemma map_set_nth : forall (s : list sfx) i x, map x_el (set_nth i x s) = set_nth i (x_el x) (map x_el s).
+Proof. induction s as [|a s IH]; intros [|i] x; cbn [set_nth map]; try reflexivity. rewrite IH. reflexivity. Qed.
+
+Lemma map_removelast : forall (s : list sfx), map x_el (removelast s) = removelast (map x_el s).
+Proof.
+  induction s as [|a s IH]; [reflexivity|]. destruct s as [|b s]; [reflexivity|].
+  change (removelast (a :: b :: s)) with (a :: removelast (b :: s)).
+  change (map x_el (a :: b :: s)) with (x_el a :: map x_el (b :: s)).
+  cbn [map]. rewrite IH. reflexivity.
+Qed.
+
+Lemma xR_len s l : xR s l -> length s = length l.
+Proof. intros [<- _]. symmetry. apply map_length. Qed.
+
+Lemma xR_less s l i j : xR s l -> (i < length l)%nat -> (j < length l)%nat ->
+  sx_less s i j = lless sf_less l i j.
+Proof.
+  intros [<- _] _ _. unfold sx_less, lless. rewrite !nth_error_map.
+  destruct (nth_error s i); [|reflexivity]. destruct (nth_error s j); reflexivity.
+Qed.
+
+Lemma xR_swap s l i j : xR s l -> (i < length l)%nat -> (j < length l)%nat ->
+  xR (sx_swap s i j) (lswap l i j).
+Proof.
+  intros [<- Hidx] Hi Hj. rewrite map_length in Hi, Hj.
+  destruct (nth_error s i) as [a|] eqn:Ha; [|apply nth_error_None in Ha; lia].
+  destruct (nth_error s j) as [b|] eqn:Hb; [|apply nth_error_None in Hb; lia].
+  unfold sx_swap, lswap. rewrite !nth_error_map, Ha, Hb. cbn [option_map]. split.
+  - rewrite !map_set_nth. reflexivity.
+  - intros k x Hk. destruct (Nat.eq_dec k j) as [->|Hkj].
+    + rewrite nth_error_set_nth_eq in Hk by (rewrite set_nth_length; exact Hj). injection Hk as <-. reflexivity.
+    + rewrite nth_error_set_nth_neq in Hk by exact Hkj. destruct (Nat.eq_dec k i) as [->|Hki].
+      * rewrite nth_error_set_nth_eq in Hk by exact Hi. injection Hk as <-. reflexivity.
+      * rewrite nth_error_set_nth_neq in Hk by exact Hki. apply Hidx. exact Hk.
+Qed.
+
+Lemma xR_push_method s l x : xR s l -> xR (sx_push_method x s) (l ++ [x]).
+Proof.
+  intros [<- Hidx]. unfold sx_push_method. split; [rewrite map_app; reflexivity|].
+  intros k y Hk. destruct (Nat.lt_ge_cases k (length s)) as [Hlt|Hge].
+  - rewrite nth_error_app1 in Hk by exact Hlt. apply Hidx. exact Hk.
+  - rewrite nth_error_app2 in Hk by exact Hge. destruct (k - length s)%nat as [|d] eqn:Ed.
+    + cbn in Hk. injection Hk as <-. cbn. f_equal. lia.
+    + destruct d; discriminate.
+Qed.
+
+Lemma xpush_sim s l x : xR s l -> xR (xpush x s) (lpush sf_less x l).
+Proof.
+  intros HR. pose proof (xR_push_method s l x HR) as H1.
+  unfold xpush, lpush, heap_push, lpush_method.
+  rewrite (xR_len _ _ H1).
+  apply (sim_up (list sfx) sx_less sx_swap sf sf_less xR xR_less xR_swap); [exact H1|].
+  rewrite app_length. cbn. lia.
+Qed.
+
+Lemma xR_pop_method s l : xR s l -> l <> [] ->
+  exists r e, nth_error l (length l - 1) = Some r /\ lpop_method l = (removelast l, Some r) /\
+    sx_pop_method s = (removelast s, Some e) /\ x_el e = r /\ x_idx e = (-1)%Z /\ xR (removelast s) (removelast l).
+Proof.
+  intros [<- Hidx] Hne.
+  assert (Hpos : (0 < length s)%nat) by (destruct s; [elim Hne; reflexivity | cbn; lia]).
+  destruct (nth_error s (length s - 1)) as [e0|] eqn:He; [|apply nth_error_None in He; lia].
+  exists (x_el e0), (with_idx e0 (-1)%Z).
+  rewrite map_length. unfold lpop_method, sx_pop_method. rewrite map_length, nth_error_map, He. cbn [option_map].
+  repeat split.
+  - apply map_removelast.
+  - intros k y Hk. apply nth_error_removelast in Hk. destruct Hk as [Hk _]. apply Hidx. exact Hk.
+Qed.
+
+Lemma xpop_sim s l : xR s l -> l <> [] ->
+  exists r e s' l', lpop sf_less l = (l', Some r) /\ xpop s = (s', Some e) /\
+    x_el e = r /\ x_idx e = (-1)%Z /\ xR s' l'.
+Proof.
+  intros HR Hne.
+  assert (Hpos : (0 < length l)%nat) by (destruct l; [elim Hne; reflexivity | cbn; lia]).
+  unfold xpop, lpop, heap_pop. rewrite (xR_len _ _ HR).
+  set (n := (length l - 1)%nat).
+  assert (H1 : xR (sx_swap s 0 n) (lswap l 0 n)) by (apply xR_swap; [exact HR | lia | unfold n; lia]).
+  assert (Hn : (n <= length (lswap l 0 n))%nat) by (rewrite lswap_length; unfold n; lia).
+  destruct (sim_down (list sfx) sx_less sx_swap sf sf_less xR xR_less xR_swap _ _ 0%nat n H1 Hn) as [H2 _].
+  set (s2 := fst (down (list sfx) sx_less sx_swap (sx_swap s 0 n) 0 n)) in *.
+  set (l2 := fst (ldown sf_less (lswap l 0 n) 0 n)) in *.
+  assert (Hl2 : length l2 = length l) by (unfold l2; rewrite ldown_length, lswap_length; reflexivity).
+  destruct (xR_pop_method s2 l2 H2) as (r & e & _ & Hp & Hs & He & Hi & HR3).
+  { intro E. rewrite E in Hl2. cbn in Hl2. lia. }
+  exists r, e, (removelast s2), (removelast l2). unfold ldown in l2. fold l2. rewrite Hp, Hs. repeat (split; [first [reflexivity | assumption]|]). assumption.
+Qed.
+
+Lemma xremove_sim s l i : xR s l -> (i < length l)%nat ->
+  exists r e s' l', lremove sf_less l i = (l', Some r) /\ xremove s i = (s', Some e) /\
+    x_el e = r /\ x_idx e = (-1)%Z /\ xR s' l'.
+Proof.
+  intros HR Hi.
+  assert (Hne : l <> []) by (destruct l; [cbn in Hi; lia | discriminate]).
+  unfold xremove, lremove, heap_remove. rewrite (xR_len _ _ HR).
+  set (n := (length l - 1)%nat).
+  destruct (n =? i)%nat eqn:E.
+  - destruct (xR_pop_method s l HR Hne) as (r & e & _ & Hp & Hs & He & Hx & HR3).
+    exists r, e, (removelast s), (removelast l). rewrite Hp, Hs. repeat (split; [first [reflexivity | assumption]|]). assumption.
+  - apply Nat.eqb_neq in E.
+    assert (H1 : xR (sx_swap s i n) (lswap l i n)) by (apply xR_swap; [exact HR | lia | unfold n; lia]).
+    assert (Hn : (n <= length (lswap l i n))%nat) by (rewrite lswap_length; unfold n; lia).
+    destruct (sim_down (list sfx) sx_less sx_swap sf sf_less xR xR_less xR_swap _ _ i n H1 Hn) as [H2 H2i].
+    unfold ldown in H2, H2i.
+    pose proof (ldown_length sf sf_less (lswap l i n) i n) as HL. unfold ldown in HL. rewrite lswap_length in HL.
+    destruct (down (list sfx) sx_less sx_swap (sx_swap s i n) i n) as [s2 i1].
+    destruct (down (list sf) (lless sf_less) lswap (lswap l i n) i n) as [l2 i2].
+    cbn [fst snd] in *. subst i2.
+    assert (H3 : xR (if (i <? i1)%nat then s2 else up (list sfx) sx_less sx_swap s2 i)
+                    (if (i <? i1)%nat then l2 else up (list sf) (lless sf_less) lswap l2 i)).
+    { destruct (i <? i1)%nat; [exact H2|].
+      apply (sim_up (list sfx) sx_less sx_swap sf sf_less xR xR_less xR_swap); [exact H2 | lia]. }
+    set (s3 := if (i <? i1)%nat then s2 else up (list sfx) sx_less sx_swap s2 i) in *.
+    set (l3 := if (i <? i1)%nat then l2 else up (list sf) (lless sf_less) lswap l2 i) in *.
+    assert (Hl3 : length l3 = length l).
+    { unfold l3. destruct (i <? i1)%nat; [exact HL|]. fold (lup sf_less l2 i). rewrite lup_length. exact HL. }
+    destruct (xR_pop_method s3 l3 H3) as (r & e & _ & Hp & Hs & He & Hx & HR3).
+    { intro E3. rewrite E3 in Hl3. cbn in Hl3. lia. }
+    exists r, e, (removelast s3), (removelast l3). rewrite Hp, Hs. repeat (split; [first [reflexivity | assumption]|]). assumption.
+Qed.
+
+Lemma xfix_sim s l i : xR s l -> (i < length l)%nat -> xR (xfix s i) (lfix sf_less l i).
+Proof.
+  intros HR Hi. unfold xfix, lfix.
+  apply (sim_fix (list sfx) (@length sfx) sx_less sx_swap sf sf_less xR); try assumption.
+  - exact xR_len.
+  - exact xR_less.
+  - exact xR_swap.
+Qed.
+
+Lemma xR_set_clients s l i x c : xR s l -> nth_error s i = Some x ->
+  xR (set_nth i (mkx (fst (x_el x), c) (x_idx x)) s) (set_nth i (fst (x_el x), c) l).
+Proof.
+  intros [<- Hidx] Hx. assert (Hi : (i < length s)%nat) by (apply nth_error_Some; congruence).
+  split; [apply map_set_nth|].
+  intros k y Hk. destruct (Nat.eq_dec k i) as [->|Hne].
+  - rewrite nth_error_set_nth_eq in Hk by exact Hi. injection Hk as <-. cbn. apply Hidx. exact Hx.
+  - rewrite nth_error_set_nth_neq in Hk by exact Hne. apply Hidx. exact Hk.
+Qed.
+
+(* one scripted operation: the array part follows [hstep], what is handed back is the element the list level
+   hands back, it holds index -1, and it is appended to the elements that left *)
+Definition popped (l : list sf) (o : hop) : option sf :=
+  match o with
+  | HPush _ | HFix _ _ => None
+  | HPop => match l with [] => None | _ => snd (lpop sf_less l) end
+  | HRemove i => if (i <? length l)%nat then snd (lremove sf_less l i) else None
+  end.
+
+Theorem xstep_sim h l o : xR (h_arr h) l ->
+  xR (h_arr (fst (xstep h o))) (hstep l o) /\
+  option_map x_el (snd (xstep h o)) = popped l o /\
+  (forall e, snd (xstep h o) = Some e -> x_idx e = (-1)%Z) /\
+  h_out (fst (xstep h o)) = out_add (h_out h) (snd (xstep h o)).
+Proof.
+  intros HR. destruct o as [x| |i|i c]; cbn [xstep hstep popped].
+  - cbn [fst snd h_arr h_out option_map out_add]. split; [apply xpush_sim; exact HR|]. repeat split. discriminate.
+  - destruct (h_arr h) as [|a s] eqn:Ea.
+    + destruct HR as [Hm _]. cbn in Hm. subst l. cbn [fst snd option_map out_add]. rewrite Ea.
+      split; [split; [reflexivity | intros i x Hx; destruct i; discriminate]|]. repeat split. discriminate.
+    + assert (Hne : l <> []) by (destruct HR as [<- _]; discriminate).
+      destruct (xpop_sim _ _ HR Hne) as (r & e & s' & l' & Hp & Hs & He & Hx & HR').
+      rewrite Hs. destruct l as [|b l0]; [elim Hne; reflexivity|]. rewrite Hp.
+      cbn [fst snd h_arr h_out option_map]. split; [exact HR'|]. split; [f_equal; exact He|].
+      split; [intros e0 H0; injection H0 as <-; exact Hx | reflexivity].
+  - rewrite (xR_len _ _ HR). destruct (Nat.ltb_spec i (length l)) as [Hi|Hi].
+    + destruct (xremove_sim _ _ i HR Hi) as (r & e & s' & l' & Hp & Hs & He & Hx & HR').
+      rewrite Hs, Hp. cbn [fst snd h_arr h_out option_map]. split; [exact HR'|]. split; [f_equal; exact He|].
+      split; [intros e0 H0; injection H0 as <-; exact Hx | reflexivity].
+    + cbn [fst snd option_map out_add]. split; [exact HR|]. repeat split. discriminate.
+  - destruct HR as [Hm Hidx]. assert (HR : xR (h_arr h) l) by (split; assumption).
+    rewrite <- Hm, nth_error_map. destruct (nth_error (h_arr h) i) as [x|] eqn:Hx; cbn [option_map fst snd h_arr h_out out_add].
+    + rewrite Hm. split; [|repeat split; discriminate].
+      assert (Hi : (i < length l)%nat) by (rewrite <- (xR_len _ _ HR); apply nth_error_Some; congruence).
+      apply xfix_sim; [apply xR_set_clients; assumption | rewrite set_nth_length; exact Hi].
+    + rewrite Hm. split; [exact HR|]. repeat split. discriminate.
+Qed.
+
+(* ---- the index-consistency invariant of SnowflakeHeap, for every operation sequence ---- *)
+
+Definition sheap_ok (h : sheap) : Prop :=
+  idx_ok (h_arr h) /\ (forall e, In e (h_out h) -> x_idx e = (-1)%Z) /\ heap_ok sf sf_less (map x_el (h_arr h)).
+
+Lemma sheap_ok_empty : sheap_ok sheap_empty.
+Proof.
+  split; [|split].
+  - intros i x H. destruct i; discriminate.
+  - intros e [].
+  - apply heap_ok_nil.
+Qed.
+
+Lemma xstep_ok h o : sheap_ok h -> sheap_ok (fst (xstep h o)).
+Proof.
+  intros [Hi [Ho Hh]].
+  destruct (xstep_sim h (map x_el (h_arr h)) o (conj eq_refl Hi)) as [[Hm Hi'] [_ [Hx Hout]]].
+  split; [exact Hi'|]. split.
+  - rewrite Hout. intros e He. destruct (snd (xstep h o)) as [y|] eqn:Ey; cbn [out_add] in He.
+    + apply in_app_or in He. destruct He as [He|[<-|[]]]; [apply Ho; exact He | apply Hx; reflexivity].
+    + apply Ho. exact He.
+  - rewrite Hm. apply hstep_ok. exact Hh.
+Qed.
+
+Lemma xrun_ok : forall ops h, sheap_ok h -> sheap_ok (xrun ops h).
+Proof.
+  induction ops as [|o ops IH]; intros h H; cbn [xrun fold_left]; [exact H|].
+  apply IH. apply xstep_ok. exact H.
+Qed.
+
+Theorem index_consistent : forall ops,
+  let h := xrun ops sheap_empty in
+  (forall i x, nth_error (h_arr h) i = Some x -> x_idx x = Z.of_nat i) /\
+  (forall e, In e (h_out h) -> x_idx e = (-1)%Z).
+Proof. intros ops h. destruct (xrun_ok ops sheap_empty sheap_ok_empty) as [A [B _]]. split; assumption. Qed.
+
+(* the pointer-level heap IS the list-level heap: same contents in the same order after every sequence *)
+Lemma xrun_sim : forall ops h l, xR (h_arr h) l -> xR (h_arr (xrun ops h)) (fold_left hstep ops l).
+Proof.
+  induction ops as [|o ops IH]; intros h l HR; cbn [xrun fold_left]; [exact HR|].
+  apply IH. apply (xstep_sim h l o HR).
+Qed.
+
+Theorem array_is_list_heap : forall ops,
+  map x_el (h_arr (xrun ops sheap_empty)) = fold_left hstep ops [].
+Proof.
+  intros ops. apply (xrun_sim ops sheap_empty []). split; [reflexivity|]. intros i x H. destruct i; discriminate.
+Qed.
+
+(* a guarded Pop hands back a least-loaded element, marked -1, and only it leaves the slice *)
+Theorem xpop_least_loaded : forall h, sheap_ok h -> h_arr h <> [] ->
+  exists e s', xpop (h_arr h) = (s', Some e) /\ x_idx e = (-1)%Z /\
+    Permutation (map x_el (h_arr h)) (x_el e :: map x_el s') /\
+    (forall y, In y (h_arr h) -> snd (x_el e) <= snd (x_el y)) /\
+    sheap_ok (mkh s' (h_out h ++ [e])).
+Proof.
+  intros h [Hi [Ho Hh]] Hne.
+  remember (map x_el (h_arr h)) as l eqn:El.
+  assert (HR : xR (h_arr h) l) by (split; [symmetry; exact El | exact Hi]).
+  assert (Hl : l <> []) by (subst l; destruct (h_arr h); [elim Hne; reflexivity | discriminate]).
+  destruct (xpop_sim _ _ HR Hl) as (r & e & s' & l' & Hp & Hs & He & Hx & [Hm' Hi']).
+  destruct l as [|m l0]; [elim Hl; reflexivity|].
+  destruct (lpop_spec sf sf_less sf_irrefl sf_trans sf_negtrans (m :: l0) m Hh eq_refl) as [l2 [Hp2 [Hok2 [Hperm Hmin]]]].
+  rewrite Hp in Hp2. injection Hp2 as <- <-.
+  exists e, s'. split; [exact Hs|]. split; [exact Hx|]. split; [rewrite Hm', He; exact Hperm|]. split.
+  - intros y Hy. rewrite He. assert (Hin : In (x_el y) (r :: l0)) by (rewrite El; apply in_map; exact Hy).
+    specialize (Hmin _ Hin). unfold sf_less in Hmin. apply N.ltb_ge in Hmin. exact Hmin.
+  - split; [exact Hi'|]. split.
+    + intros e0 H0. apply in_app_or in H0. destruct H0 as [H0|[<-|[]]]; [apply Ho; exact H0 | exact Hx].
+    + cbn [h_arr]. rewrite Hm'. exact Hok2.
 Qed.
